@@ -586,7 +586,7 @@ class Fn:
 
     def __init__(self, path, select, name, contract="", nth=0, within=None, constexpr=(), subs=(), sig_subs=(),
                  calls=None, loops=None, piece=None, canary=None, throw_ret="0", pp_defines=(), keep_lambdas=False,
-                 prologue="", scopes=()):
+                 prologue="", scopes=(), derive=None):
         self.path, self.select, self.name, self.contract = path, select, name, contract
         self.nth, self.within = nth, within
         self.constexpr, self.subs, self.sig_subs = list(constexpr), list(subs), list(sig_subs)
@@ -596,6 +596,10 @@ class Fn:
         self.pp_defines = pp_defines
         self.prologue = prologue
         self.scopes = list(scopes)   # R4: class names whose `Name::` qualification is dropped
+        # names the contract needs but must not hard-code: {token: regex with one group, matched on the extracted
+        # body}; the contract / loop contract / canary texts refer to them as @token@, and to the k-th parameter as
+        # @k@ - so renaming a parameter or a local in /repo does not break the proof
+        self.derive = dict(derive or {})
 
 
 def extract_fn(fn, mutate=False):
@@ -612,6 +616,15 @@ def extract_fn(fn, mutate=False):
         k_sc += k1 + k2
     if fn.scopes:
         log.note("R4.scope", k_sc)
+    binds = {}
+    for tok, rx in fn.derive.items():
+        mm = re.search(rx, body, flags=re.S)
+        if not mm:
+            raise ExtractionError(f"{fn.name}: cannot derive the name @{tok}@ (/{rx}/ does not match the function body)")
+        binds[tok] = mm.group(1)
+
+    def bind(text):
+        return re.sub(r"@(\w+)@", lambda m_: binds.get(m_.group(1), m_.group(0)), text) if text else text
     # R4b: constructor `Name(params) : m1(e1), m2(e2)` -> `void name(params)` with `m1 = e1; m2 = e2;` first
     mctor = re.match(r"^(.*?\))\s*:\s*(\w+\s*\(.*)$", sig, flags=re.S)
     if mctor:
@@ -656,14 +669,14 @@ def extract_fn(fn, mutate=False):
         else:
             raise ExtractionError("unknown piece kind")
         # live-ins passed by pointer: every use becomes (*name)
-        for nm in pc.get("byref", ()):
+        for nm in [bind(x) for x in pc.get("byref", ())]:
             body = re.sub(r"(?<![\w.>])" + re.escape(nm) + r"\b(?!\s*\()", f"(*{nm})", body)
         if pc.get("prologue"):         # declarations / lambdas of the enclosing function the piece depends on
             pro = slice_between(whole, pc["prologue"][0], pc["prologue"][1])
             body = "{\n" + pro + "\n" + body + "\n" + pc.get("epilogue", "") + "\n}"
         elif pc.get("epilogue") or kind == "slice":
             body = "{\n" + body + "\n" + pc.get("epilogue", "") + "\n}"
-        sig = pc["sig"]
+        sig = bind(pc["sig"])
         log.note("piece:" + kind, 1)
     else:
         sig = apply_subs(sig, fn.sig_subs, log, "SS")
@@ -685,6 +698,16 @@ def extract_fn(fn, mutate=False):
         body, k = re.subn(r"(?<![\w.>])" + re.escape(cxx) + r"\s*\(", c + "(", body)
         log.note(f"call:{cxx}->{c}", k)
     body = apply_subs(body, fn.subs, log, "S")
+    try:
+        _, plist = split_params(sig)
+        for k, prm in enumerate(plist):
+            mm = re.search(r"(\w+)\s*$", prm)
+            if mm:
+                binds.setdefault(str(k + 1), mm.group(1))
+    except (ValueError, ExtractionError):
+        pass
+    if binds:
+        log.note("names:" + ",".join(f"{k}={v}" for k, v in sorted(binds.items())), 1)
     # loop contracts
     if fn.loops:
         for ordinal in sorted(fn.loops, reverse=True):
@@ -693,7 +716,7 @@ def extract_fn(fn, mutate=False):
                 raise ExtractionError(f"{fn.name}: loop {ordinal} for a loop contract not found")
             p = body.index("(", it[ordinal].start())
             q = match_close(body, p, "(", ")")
-            body = body[:q + 1] + "\n" + fn.loops[ordinal].strip() + "\n" + body[q + 1:]
+            body = body[:q + 1] + "\n" + bind(fn.loops[ordinal]).strip() + "\n" + body[q + 1:]
         log.note("loop-contracts", len(fn.loops))
     if lam:
         # macros defined inside the body stay defined until the end of the function; #undef them after it
@@ -701,14 +724,14 @@ def extract_fn(fn, mutate=False):
     if mutate:
         if not fn.canary:
             raise ExtractionError(f"{fn.name}: no canary defined")
-        body2, k = re.subn(fn.canary[0], fn.canary[1], body, count=1, flags=re.S)
+        body2, k = re.subn(bind(fn.canary[0]), bind(fn.canary[1]), body, count=1, flags=re.S)
         if k != 1 or body2 == body:
             raise ExtractionError(f"{fn.name}: canary mutation /{fn.canary[0]}/ did not apply")
         body = body2
     if fn.prologue:
         b = body.index("{")
         body = body[:b + 1] + "\n" + fn.prologue + "\n" + body[b + 1:]
-    text = sig + "\n" + fn.contract.strip() + "\n" + body + "\n"
+    text = sig + "\n" + bind(fn.contract).strip() + "\n" + body + "\n"
     check_is_c(sig + body, fn.name)
     meta = {"function": fn.name, "source": f"{fn.path}:{loc.start_line}", "rules": log.as_list()}
     return text, log, meta
